@@ -168,7 +168,7 @@ def handshake_histories(rng, props, n, full=False):
             "TX_exp": dict(expire_s=rng.choice([1, 2])),
             "TX_key": dict(key="F"),
             "TX_proto": dict(proto="Q"),
-            "TX_host": dict(hosts=(2,)),
+            "TX_host": dict(hosts=rng.choice([(2,), (51,), (51, 2)])),     # 51: the server's IP address with another port
             "TX_tamper_exp": dict(tamper={"field": "expire", "delta": rng.choice([1, 100, -1])}),
             "TX_tamper_proto": dict(proto="Q", tamper={"field": "proto", "value": 7}),
             "TX_tamper_priv": dict(tamper={"field": "private_bit", "bit": rng.randrange(0, 8192)}),
@@ -640,6 +640,23 @@ def liveness_schedules(rng, props, n, full=False):
 # ---------------------------------------------------------------------------------------------------------------
 # C05 / C19: the table binding used tokens to addresses at its capacity (2048 entries, server.rs:51, 175-207)
 # ---------------------------------------------------------------------------------------------------------------
+def token_table_forged(props, n=2100):
+    """Token TV is used from address 1; then `n` requests that do NOT authenticate (valid tokens with one bit of their sealed part
+    flipped, every one with a different authentication tag) arrive from address 2; then the holder of TV shows up at address 3.
+    Requests that were never honoured must not count as uses: the binding of TV to address 1 holds (no known finding here)."""
+    sc = NS("tokentable-forged-%d" % n, props, max_clients=2)
+    sc.token("TV", 10)
+    sc.client("v", "TV", 1)
+    sc.cupdate("v", 100, as_="vreq")
+    sc.sdeliver("vreq", as_="vchal")
+    for i in range(n):
+        sc.token("F%d" % i, 1000 + i)
+        sc.add(a="srequest", t="F%d" % i, **{"from": 2}, mut={"bit": 8 * 60 + (i % 4000)}, nonauth=True)
+    sc.client("moved", "TV", 3)
+    sc.pump(["moved"], dt=100, n=4)
+    return [sc.s]
+
+
 def token_table_histories(props, fillers=(2047, 2048)):
     """Token TV is used from address 1; `n` further valid tokens are presented (from address 2); then the holder of TV shows
     up at address 3.  With 2047 others the binding is still in the table (refused); the 2048th replaces it (known finding D21)."""
